@@ -44,6 +44,14 @@ CLAIMED["C19"] = dict(category="model_checking", engine="control", design_ref="D
          "from the spec are run on real TCP and Unix sockets, the bundled CLI client as a subprocess, and judged by Control!SockMon.",
     technique="TLA+ server lifecycle spec (safety + liveness) with TLC; spec-generated event orders run on real sockets; trace validation")
 
+CLAIMED["C20"] = dict(category="model_checking", engine="queue", design_ref="DESIGN.md section 6 (C20)",
+    note="Trusted: CPython 3.12 asyncio.Queue/Event as modelled (fidelity measured by lock-step replay: every TLC behaviour's predicted qsize / ready-queue length / "
+         "unfinished count is compared after every step); harness-owned consumers report their events truthfully; unbounded queue only.",
+    text="spec/QueueCtx.tla models asyncio.Queue + the context manager on the kernel model; TLC explores every schedule of puts, consumers, joins, body "
+         "outcomes and cancellations (while waiting, after hand-over, inside the block) within small bounds and checks the property monitor QMon and the "
+         "accounting invariants; all behaviours are replayed in lock-step on the real Queue and the recorded runs are judged by QMon.",
+    technique="TLA+ model of Queue + context manager model-checked with TLC; behaviours replayed in lock-step on the real Queue; trace validation by the monitor")
+
 NOT_YET = {}
 
 def main():
@@ -57,6 +65,8 @@ def main():
         "engines": [
             {"name": "pool", "path": "tools/poolcheck.py", "serves_properties": ["C%02d" % i for i in range(1, 16)],
              "kind_free_text": "TLC on spec/PoolImpl*.tla + spec/Monitor.tla; harness/poolrun.py single-steps the real event loop; spec/PoolTrace.tla judges recorded traces"},
+            {"name": "queue", "path": "tools/queuecheck.py", "serves_properties": ["C20"],
+             "kind_free_text": "TLC on spec/QueueCtx.tla; harness/queuerun.py single-steps the real event loop; spec/QueueTrace.tla judges recorded runs"},
             {"name": "control", "path": "tools/ctlcheck.py", "serves_properties": ["C16", "C17", "C18", "C19"],
              "kind_free_text": "TLC on spec/Control.tla + spec/CtlCommands.tla; harness/ctlrun.py (in-memory sessions, twin pool) and harness/ctlsock.py (real sockets, CLI client); spec/ControlTrace.tla judges recorded runs"},
         ],
